@@ -54,6 +54,9 @@ structure Globals where
   /-- `d.as_html_tags(lib_prefix=lp, include_version=iv)` (HTMLDependency.as_html_tags is not translated): what the call
       answers for the dependency object `d` is a parameter (Py/PrimC11.lean); by default nothing is known -/
   asHtmlTagsC11 : PVal → PVal → PVal → PyM PVal := fun _ _ _ => Except.error PyErr.unsupported
+  /-- `str.upper` of the running interpreter (harness/pytr_c20b.py: the initial of a JSX tag name), or `none` = not supplied
+      (Py/PrimC20b.lean) -/
+  upperC20b : Str → Option Str := fun _ => Option.none
 
 instance : Inhabited Globals :=
   ⟨{ HTML_ESCAPE_TABLE := .none, HTML_ATTRS_ESCAPE_TABLE := .none, VOID_TAG_NAMES := [],
